@@ -37,6 +37,14 @@ STRENGTHENED = {
     "C11-6": "missed at first by C11 (caught by C09); C11 gained a chunk of exactly 32768 stored bytes",
     "C19-5": "caught by the proof obligation on the inventory of writable statics (regenerated from the object files); the thread runs did not produce a differing result",
     "C19-6": "caught by the proof obligation on the inventory of writable statics",
+    "C13-8": "missed at first; the header harness now re-queries the chunk count and re-iterates after building download ranges twice",
+    "C13-9": "missed at first; the header harness now looks every chunk up by number (twice, ascending, descending, one past the end) and compares with the iteration",
+    "C16-9": "missed at first; segmentations with chunking options set after the first data (refused, error cleared, writing continues) were added: same file required",
+    "C05-8": "missed at first; multipart responses with a 33-70 KB part, a cut at every offset of a part header and next fragments around 32768 minus the stored bytes were added",
+    "C05-9": "missed at first; boundaries over the full RFC 2046 alphabet with 0..8 regex metacharacters, quoted and unquoted, were added",
+    "C04-9": "missed at first by C04 (caught by C05); the range server can now end a piece 0..4 bytes into the blank line of every part header",
+    "C12-9": "missed at first; the tools are now also run under EINTR and ENOSPC faults on every write",
+    "C17-4": "missed at first; sessions (broken transfer, optional re-scan, reset, second response of any kind) were added to C17 with theorems C17_session, C17_rescan_sound",
     "C01-3": "caught as HANG; the per-case watchdog was shortened so that the check stays fast",
 }
 
